@@ -28,11 +28,11 @@ tier = sys.argv[1] if len(sys.argv) > 1 else 'quick'
 seed = int(sys.argv[2]) if len(sys.argv) > 2 else 0
 QUICK = tier != 'thorough'
 NPROC = 16
-CALL_LIMIT = 4.0 if QUICK else 10.0        # CPU seconds for one history() call / one open (normal: < 0.5)
+CALL_LIMIT = 2.0 if QUICK else 10.0        # CPU seconds for one history() call / one open (normal: < 0.5)
 WALL_FACTOR = 8                            # ... and CALL_LIMIT * WALL_FACTOR seconds of wall clock (blocking hang)
 T_START = time.time()
-DEADLINE = T_START + (42.0 if QUICK else 700.0)   # no new case is started after this (cases left over are counted)
-HARD_END = T_START + (56.0 if QUICK else 850.0)   # the parent kills whatever still runs
+DEADLINE = T_START + (36.0 if QUICK else 700.0)   # no new case is started after this (cases left over are counted)
+HARD_END = T_START + (57.0 if QUICK else 850.0)   # the parent kills whatever still runs
 LISTDIR = os.path.join(REPO, 'tests', 'listing')
 TSPEC = {'element': 'e', 'connection': 'c', 'generation': 'g', 'primary': 'p', 'element1': 'e1', 'element2': 'e2'}
 CONTRACTS = ('terminates', 'shape', 'values', 'times', 'restore')
@@ -590,7 +590,7 @@ def run_job(job, conn, progfile):
                 cats = set(c for c, _ in viol)
                 cur = list(sel)
                 changed = True
-                while changed and len(cur) > 1:
+                while changed and len(cur) > 1 and time.time() < DEADLINE:
                     changed = False
                     for i in range(len(cur)):
                         cand = cur[:i] + cur[i + 1:]
